@@ -116,6 +116,7 @@ main(int argc, char** argv)
   ZixSem sem;
   zix_sem_init(&sem, 0);
   v_setup_io();
+  v_watchdog(20);
   while ((n = v_next(in, tok)) >= 0) {
     if (v_marker(n, tok)) {
       continue;
